@@ -108,6 +108,35 @@ func c17Enumerate(tier string, emit explore.Emit) {
 				}})
 		})
 	}
+	// decorating an error must not change the error that was decorated (values may be shared between connections)
+	forShapes(len(ds), 2, func(sh []int) {
+		if len(sh) == 0 {
+			return
+		}
+		shape := append([]int(nil), sh...)
+		for di := range ds {
+			di := di
+			emit(explore.Case{Family: "purity", Size: len(shape) + 1,
+				Desc: func() any {
+					return map[string]any{"base": "boom", "shape_innermost_first": shapeNames(ds, shape), "then_decorated_again_with": ds[di].name, "reported": "the ORIGINAL value, afterwards"}
+				},
+				Run: func() explore.Result {
+					var res explore.Result
+					res.Outcome = "decorated"
+					res.Key = fmt.Sprint("purity", shape, di)
+					orig := buildErr(ds, "boom", shape)
+					_ = ds[di].apply(orig) // the derived error is dropped; orig must be unaffected
+					var sink bytes.Buffer
+					wire.ErrorCode(buffer.NewWriter(harness.Quiet, &sink), orig)
+					before := len(res.Violations)
+					c17Check(&res, sink.Bytes(), expectFields(ds, "boom", shape))
+					if len(res.Violations) > before {
+						res.Violations[before].Clause = "decorating-mutated-the-original"
+					}
+					return res
+				}})
+		}
+	})
 	// once per shape through a live session, as a statement error
 	forShapes(len(ds), sdepth, func(sh []int) {
 		shape := append([]int(nil), sh...)
